@@ -380,8 +380,32 @@ func init() {
 				{bD("$set", bD("a.$[i].x", int32(1)), "$inc", bD("a.$[j].x", int32(2))), []bson.D{bD("i.y", int32(2)), bD("j.x", int32(2))}},
 				{bD("$set", bD("a.$[i]", int32(1)), "$unset", bD("a.$[j]", "")), []bson.D{bD("i", bD("$gte", int32(2))), bD("j", bD("$lte", int32(2)))}},
 				{bD("$set", bD("a.$[i].x", int32(1), "a.$[j].y", int32(2))), []bson.D{bD("i.x", bD("$gte", int32(1))), bD("j.x", bD("$gte", int32(2)))}},
+				// the first of the two overlapping writes changes nothing
+				{bD("$unset", bD("a.$[i].zz", ""), "$set", bD("a.$[j].zz", int32(1))), []bson.D{bD("i.x", bD("$gte", int32(1))), bD("j.x", bD("$gte", int32(1)))}},
+				{bD("$max", bD("a.$[i].x", int32(-5)), "$set", bD("a.$[j].x", int32(1))), []bson.D{bD("i.x", bD("$gte", int32(1))), bD("j.x", bD("$gte", int32(2)))}},
+				{bD("$pull", bD("a.$[i].l", int32(9)), "$push", bD("a.$[j].l", int32(1))), []bson.D{bD("i.x", bD("$gte", int32(1))), bD("j.x", bD("$lte", int32(1)))}},
 			} {
 				checkOne(d, x.upd, x.filters, "identifier-overlap", "identifiers", "a.$[i]+a.$[j]", nil)
+			}
+		}
+		// one identifier used by two operators (the first changes what the filter looks at), and identifiers whose filters
+		// hold vacuously for a value that lacks the other identifier's name ($ne, $exists:false, null): every identifier is
+		// resolved against the original document and with its own filters only
+		for _, d := range docs {
+			for _, x := range []struct {
+				upd     bson.D
+				filters []bson.D
+			}{
+				{bD("$set", bD("a.$[i].x", int32(5)), "$inc", bD("a.$[i].y", int32(10))), []bson.D{bD("i.x", int32(1))}},
+				{bD("$inc", bD("a.$[i].x", int32(1)), "$set", bD("a.$[i].y", int32(0))), []bson.D{bD("i.x", bD("$lte", int32(1)))}},
+				{bD("$unset", bD("a.$[i].x", ""), "$set", bD("a.$[i].z", true)), []bson.D{bD("i.x", bD("$exists", true))}},
+				{bD("$mul", bD("a.$[i]", int32(2)), "$inc", bD("a.$[j]", int32(1))), []bson.D{bD("i", bD("$lte", int32(1))), bD("j", bD("$gte", int32(2)))}},
+				{bD("$set", bD("a.$[i].v", int32(1), "a.$[j].w", int32(1))), []bson.D{bD("i.x", int32(1)), bD("j.x", bD("$ne", int32(1)))}},
+				{bD("$set", bD("a.$[i].v", int32(1), "a.$[j].w", int32(1))), []bson.D{bD("i.x", int32(2)), bD("j.q", bD("$exists", false))}},
+				{bD("$set", bD("a.$[i].v", int32(1)), "$inc", bD("a.$[j].y", int32(1))), []bson.D{bD("i.x", int32(2)), bD("j.zz", nil)}},
+				{bD("$set", bD("a.$[i]", int32(0), "a.$[j]", int32(9))), []bson.D{bD("i", int32(1)), bD("j", bD("$nin", bson.A{int32(1), int32(2)}))}},
+			} {
+				checkOne(d, x.upd, x.filters, "identifier-reuse", "identifiers-reuse", "a.$[i]+a.$[j]", nil)
 			}
 		}
 		// through the collection: the stored document after UpdateOne is the document Apply produces, ModifiedCount is 1
